@@ -568,3 +568,5 @@ if __name__ == "__main__":
     import sys
     if len(sys.argv) >= 4 and sys.argv[1] == "--worker":
         worker_main(sys.argv[2], int(sys.argv[3]))
+
+RULE = RULE + ("; ALSO (fifth session): deliveries with option pairs: encoding='utf-8' (with and without autodetect_encoding=False) on a BOM file, autodetect_encoding=False next to every named encoding")
